@@ -7,6 +7,8 @@ NOTE = ("Trusted base: symnp's model of the NumPy surface (symnp/proxy.py), the 
         "(rounding/overflow/NaN propagation not modelled). Claim per obligation: for all real inputs in the harness domain, on every "
         "explored path; undecided obligations are listed in the evidence and not claimed.")
 CHECKS = {
+ 'C18': "The seven metrics are executed on symbolic unit quaternions / rotation matrices and their results compared by the solver with the closed forms in d = p.q (8(1-d^2), 2(1-|d|), 1-|d|, arccos|d|, arccos(2d^2-1)); non-negativity, zero set, symmetry and sign invariance are decided on the real code, left/right invariance by the certified lemma (sp).(sq) = p.q plus the closed forms; the allclose shortcuts are branch sides the solver must refute. Quick tier: restricted pair domain (stated in the evidence); thorough: relative angles down to 1e-4 and angular_distance.",
+ 'C17': "ECEF<->ENU (both directions, rigidity, origin), ENU<->AER, ENU<->DCA, NED<->ENU and the llf/ecef rotation matrices are executed on symbolic latitudes/longitudes/angles (degree-valued angle atoms) and symbolic offsets; the round trips are trig-polynomial identities decided by the solver. The geodetic<->ECEF round trip through the iterative ecef2geodetic is attempted in the thorough tier only and is not claimed.",
  'C10': "Round trips rpy<->quaternion (single, array, free functions, degrees), axis-angle<->quaternion and <->matrix, exp(log q), powers, DCM.log and every Euler-sequence constructor are executed on symbolic angle atoms (one (cos,sin) pair per atom; inverse-trig results compared by cross-multiplication) and compared with the input angles / ordered products of elementary rotations for all angles in the stated ranges.",
  'C19': "Table-driven symbolic execution of the public callables of ahrs.common.orientation/quaternion/dcm, ahrs.utils.metrics and the filters' estimate/update entry points on fresh symbolic (non-normalised, degree-valued) argument arrays; aliasing is exact on object arrays, so the solver decides for all inputs whether any element of an argument differs from its saved term after the call and whether a second call returns the same result.",
  'C07': "Differential symbolic execution: every N-row entry point (QuaternionArray methods, batch branches of chiaverini/hughes, batch metrics, vectorised Tilt/SAAM) is run on symbolic rows (N=2 and N=1) next to its single-item twin and the solver decides row-by-row equality modulo real algebra (inverse-trig results compared through their arguments).",
